@@ -75,9 +75,7 @@ package codegen
 //@   noescape
 // a NonNull field that came back null is counted in the field set the closure is run FOR (its parameter: the main
 // set, or the set of the deferred group) - counting it in a captured set would hide the failure from the group
-//@   callsite AddUint32: requires argtext0 == "&fs.Invalids" && declaredHere(fs)
-//@   at? `assign fs.Invalids` requires declaredHere(fs)
-//@   at? `assign out.Invalids` requires false
+//@   callsite AddUint32: requires argparam0 && argpath0 == ".Invalids"
 //@   ensures panicked ==> calls(Recover) == 1 && calls(Error) == 1
 //@   ensures !panicked ==> calls(Recover) == 0 && calls(Error) == 0
 
@@ -161,8 +159,8 @@ package codegen
 //@ family exec [C13,C12]
 //@   ensures calls(GetOperationContext) == 1
 //@ family exec$closure(@returned) [C13,C12]
-//@   at! `data.MarshalGQL(&buf)` requires declaredHere(buf)
-//@   replay subscriptionMultipart.go.tmpl for declaredHere
+//@   callsite MarshalGQL: requires argownaddr0
+//@   replay subscriptionMultipart.go.tmpl for argownaddr0
 // C01 (every exec layout): when the schema has a FIELD-location directive the generated package holds the dispatcher
 // _fieldMiddleware; then every field function that resolves anything goes through it - never straight to
 // ResolverMiddleware - no matter which generated file the field's type ended up in (follow-schema renders each
